@@ -887,3 +887,103 @@ def gen_psf_table():
            f'def orderByIdIndexesWithUngroupIndices : Bool := {b(obi_ok)}\n\n'
            'end PhotVerif.Gen.PsfTable\n')
     return 'PsfTable.lean', src, out
+
+# ------------------------------------------------------------------ delegation completeness (dropped keyword arguments)
+FORWARD_SCOPE = {'C02': ['aperture/core.py', 'aperture/photometry.py', 'aperture/mask.py'],
+                 'C04': ['segmentation/detect.py', 'segmentation/finder.py'],
+                 'C12': ['psf/photometry.py', 'psf/groupers.py'],
+                 'C15': ['aperture/photometry.py', 'aperture/stats.py', 'psf/photometry.py', 'background/background_2d.py', 'utils/errors.py'],
+                 'C16': ['aperture/stats.py'],
+                 'C18': ['datasets/images.py', 'psf/photometry.py', 'psf/utils.py'],
+                 'C19': ['profiles/core.py', 'profiles/radial_profile.py', 'profiles/curve_of_growth.py']}
+
+
+def _forward_rows():
+    """rows (file, owner, callee, missing parameter): a call that delegates to another photutils function / method / constructor
+    (resolved by its unique name) while NOT passing on a value the caller holds under the callee's own parameter name -
+    either one of the caller's parameters (when the call forwards at least two of them) or a `self.<name>` attribute set in
+    `__init__`.  Calls with `**kwargs` are not analysed."""
+    import glob
+    root = os.path.join(REPO, 'photutils')
+    files = sorted(f for f in glob.glob(root + '/**/*.py', recursive=True) if '/tests/' not in f and '/extern/' not in f)
+
+    def params(fn):
+        a = fn.args
+        return [x.arg for x in a.posonlyargs + a.args + a.kwonlyargs if x.arg not in ('self', 'cls')]
+    sigs, trees, src_all = {}, {}, ''
+    for f in files:
+        txt = open(f).read()
+        try:
+            t = ast.parse(txt)
+        except SyntaxError:
+            continue
+        trees[f] = t
+        src_all += txt
+        for n in t.body:
+            if isinstance(n, ast.FunctionDef):
+                sigs.setdefault(n.name, []).append(n)
+            elif isinstance(n, ast.ClassDef):
+                for m in n.body:
+                    if isinstance(m, ast.FunctionDef):
+                        sigs.setdefault(m.name, []).append(m)
+                        if m.name == '__init__':
+                            sigs.setdefault(n.name, []).append(m)
+
+    def callee_of(c):
+        name = c.func.attr if isinstance(c.func, ast.Attribute) else (c.func.id if isinstance(c.func, ast.Name) else None)
+        if name in sigs and not any(k.arg is None for k in c.keywords):
+            cands = {tuple(params(g_)) for g_ in sigs[name]}
+            if len(cands) == 1:                                 # one definition, or several with the same parameter names
+                return name, list(next(iter(cands)))
+        return None, None
+    rows = []
+    for f, t in trees.items():
+        rel = os.path.relpath(f, root)
+        for n in ast.walk(t):
+            if isinstance(n, ast.FunctionDef):
+                P = params(n)
+                if len(P) < 2:
+                    continue
+                for c in ast.walk(n):
+                    if isinstance(c, ast.Call):
+                        name, Q = callee_of(c)
+                        if name is None:
+                            continue
+                        fwd = set(Q[:len(c.args)]) | {k.arg for k in c.keywords}
+                        shared = [p_ for p_ in P if p_ in Q]
+                        if len([p_ for p_ in shared if p_ in fwd]) >= 2:
+                            rows += [(rel, n.name, name, p_) for p_ in shared if p_ not in fwd]
+        for cls in [n for n in t.body if isinstance(n, ast.ClassDef)]:
+            attrs = set()
+            for m in cls.body:
+                if isinstance(m, ast.FunctionDef) and m.name == '__init__':
+                    for x in ast.walk(m):
+                        if isinstance(x, ast.Assign):
+                            for tg in x.targets:
+                                if isinstance(tg, ast.Attribute) and isinstance(tg.value, ast.Name) and tg.value.id == 'self':
+                                    attrs.add(tg.attr)
+            for m in cls.body:
+                if isinstance(m, ast.FunctionDef):
+                    for c in ast.walk(m):
+                        if isinstance(c, ast.Call):
+                            name, Q = callee_of(c)
+                            if name is None:
+                                continue
+                            fwd = set(Q[:len(c.args)]) | {k.arg for k in c.keywords}
+                            rows += [(rel, f'{cls.name}.{m.name}', name, q_) for q_ in Q if q_ in attrs and q_ not in fwd]
+    return sorted(set(rows)), src_all
+
+
+def gen_forward_table():
+    rows, src = _forward_rows()
+    out = ('/- GENERATED by tools/extract_tables.py from every module of photutils (delegating calls that drop an argument) '
+           f'(sha256/16 {sha(src)}). DO NOT EDIT. -/\n'
+           'import PhotVerif.Model.Prelude\nnamespace PhotVerif.Gen.ForwardTable\n\n'
+           '/-- (file, caller, callee, parameter the caller holds under the same name but does not pass on) -/\n'
+           'def dropped : List (String × String × String × String) :=\n  ['
+           + ',\n   '.join(f'("{a}", "{b_}", "{c}", "{d}")' for a, b_, c, d in rows) + ']\n\n'
+           + ''.join(f'/-- files whose delegating calls belong to {k} -/\ndef scope{k} : List String := [' + ', '.join(f'"{x}"' for x in v) + ']\n' for k, v in sorted(FORWARD_SCOPE.items())) + '\n'
+           '/-- the rows whose file is one of `files` -/\n'
+           'def droppedIn (files : List String) : List (String × String × String × String) := dropped.filter fun r => files.contains r.1\n\n'
+           'end PhotVerif.Gen.ForwardTable\n')
+    return 'ForwardTable.lean', src, out
